@@ -277,6 +277,16 @@ def xs_child():
     r._merge_parent = xs_parent()
     return r
 
+CH_DEFAULT = [1, 2]
+
+@memento_function(cluster="pc")
+def ch_fn(x, vd=CH_DEFAULT):
+    return x + sum(vd)
+
+@memento_function(cluster="pc")
+def ch_user(x):
+    return ch_fn(x)
+
 @memento_function(cluster="probe", version="1")
 def mx_fn(x):
     _MX["events"].append(("body", _MX["held"] > 0))
@@ -396,6 +406,18 @@ def _():
     if seen != {n for n, _ in calls}:
         return None
     return all(h for _, h in state["acc"])
+
+@probe("code_hash_refreshed")
+def _():
+    # a mutable module variable that is the default value of a parameter is mutated in place: after the versions have been
+    # recomputed, the code hash the rules used must be the one of the function as it is now
+    from twosigma.memento.code_hash import fn_code_hash
+    from twosigma.memento.memento import ENVIRONMENT_HASH_BYTES
+    ch_user.version()
+    CH_DEFAULT.append(7)
+    ch_user.version()
+    rule = [r for r in ch_user.hash_rules() if r.key.endswith(":ch_fn") and r.key.startswith("MementoFunction")]
+    return bool(rule) and rule[0].rule_hash == fn_code_hash(ch_fn.fn, salt=None, environment=ENVIRONMENT_HASH_BYTES)
 
 @probe("partition_cross_store_copied")
 def _():
